@@ -140,6 +140,20 @@ func (g *pgen) pushAddrOperand() {
 	}
 }
 
+// pushCallTarget: what CALL-family ops call: mostly the deployed contracts (so that frames nest).
+func (g *pgen) pushCallTarget() {
+	switch c := g.n("calltarget", 10); {
+	case c <= 5:
+		g.a.pushAddr(contractAt[g.n("addrc", 3)])
+	case c == 6:
+		g.a.op(evm.ADDRESS)
+	case c == 7:
+		g.a.pushU(uint64(1 + g.n("precomp", 4)))
+	default:
+		g.pushAddrOperand()
+	}
+}
+
 func (g *pgen) pushToken() {
 	switch g.n("token", 8) {
 	case 0, 1, 2:
@@ -160,16 +174,16 @@ func (g *pgen) pushToken() {
 // pushValueOperand: the value of an inner CALL / CREATE: mostly 0, else small, the whole balance,
 // one more than the balance, or absurd.
 func (g *pgen) pushValueOperand() {
-	switch g.n("value", 12) {
-	case 0, 1, 2, 3, 4, 5:
+	switch c := g.n("value", 20); {
+	case c <= 13:
 		g.a.pushU(0)
-	case 6, 7:
+	case c <= 15:
 		g.a.pushU(1)
-	case 8:
+	case c == 16:
 		g.a.op(evm.ADDRESS, evm.BALANCE)
-	case 9:
+	case c == 17:
 		g.a.op(evm.ADDRESS, evm.BALANCE).pushU(1).op(evm.ADD)
-	case 10:
+	case c == 18:
 		g.a.pushU(1000)
 	default:
 		g.a.pushBig(pickB(g, "absval", []*big.Int{pow2(255), pow2m1(256), pow2(64)}))
@@ -427,7 +441,7 @@ func (g *pgen) call(wild bool) {
 	if op == evm.CALL || op == evm.CALLCODE {
 		g.pushValueOperand()
 	}
-	g.pushAddrOperand()
+	g.pushCallTarget()
 	g.pushGasOperand()
 	a.op(op)
 	g.afterCall()
@@ -585,7 +599,11 @@ func (g *pgen) program(init bool) []byte {
 
 func genContractCode(t *rapid.T, idx, n int) []byte {
 	g := &pgen{t: t, a: &asm{}}
-	switch c := g.n("shape", 20); {
+	c := g.n("shape", 20)
+	if idx > 0 && c > 6 && g.n("morewrappers", 3) == 0 {
+		c = 1
+	}
+	switch {
 	case c == 0: // uniform bytes
 		return rapid.SliceOfN(rapid.Byte(), 0, 64).Draw(t, "uniformcode")
 	case c <= 5: // wrapper: call another contract, remember whether it failed, finish normally
@@ -687,9 +705,9 @@ func genGas(t *rapid.T) uint64 {
 	switch c := rapid.IntRange(0, 19).Draw(t, "gasclass"); {
 	case c == 0:
 		return rapid.SampledFrom([]uint64{0, 1, 2, 3, 20, 99, 100}).Draw(t, "gastiny")
-	case c <= 4:
+	case c <= 2:
 		return uint64(rapid.IntRange(700, 100000).Draw(t, "gassmall"))
-	case c <= 13:
+	case c <= 11:
 		return uint64(rapid.IntRange(100000, 2000000).Draw(t, "gasmid"))
 	default:
 		return uint64(rapid.IntRange(2000000, 10000000).Draw(t, "gasbig"))
